@@ -699,7 +699,7 @@ theorem roundV_low {f : Fmt} (v : Valid f) {man : Nat} (hm : man ≠ 0) {exp : I
     roundV f man exp = .fin (rne man exp f.emin) f.emin ∧ rne man exp f.emin ≤ 2 ^ (f.p - 1) := by
   obtain ⟨B, hB, b1, b2, b3, b4, b5⟩ := fmt_facts v
   have hp := v.p2
-  have hle : rne man exp f.emin ≤ 2 ^ (f.p - 1) := rne_le (by push_cast; omega)
+  have hle : rne man exp f.emin ≤ 2 ^ (f.p - 1) := rne_le (by omega)
   refine ⟨?_, hle⟩
   have hlt : 2 ^ (f.p - 1) < 2 ^ f.p := Nat.pow_lt_pow_right (by omega) (by omega)
   unfold roundV
@@ -1105,5 +1105,512 @@ theorem loop_dead' {f : Fmt} (v : Valid f) (s : Bool) {man : Nat} (hm : man ≠ 
 theorem valid16 : Valid binary16 := ⟨by decide, by decide, by decide, by decide⟩
 theorem valid32 : Valid binary32 := ⟨by decide, by decide, by decide, by decide⟩
 theorem valid64 : Valid binary64 := ⟨by decide, by decide, by decide, by decide⟩
+
+/-! ## canonical results, exact overflow threshold -/
+
+theorem zero' {f : Fmt} (v : Valid f) (fl : PyVal) (s : Bool) (exp : Int) :
+    mpf2float f fl (.fin s 0 exp) none .n = .bits 0 := by
+  obtain ⟨B, hB, b1, b2, b3, b4, b5⟩ := fmt_facts v
+  have hp := v.p2
+  have hc : convInt f 0 = some (.fin 0 0) := by
+    unfold convInt; simp [bitlen_zero]
+  have hs : shiftLoop (largest f) 0 0 = (0, 0) := shiftLoop_le 0 (Nat.zero_le _)
+  have hr : roundV f 0 0 = .fin 0 f.emin := by unfold roundV; simp
+  have hmax : ¬ maxexp f < 0 := by unfold maxexp; omega
+  unfold mpf2float
+  simp only [normalize, fzero, if_true, Int.zero_add, Nat.cast_zero, signBits, Bool.false_eq_true, if_false,
+    hmax, hs, hc, ldexpV, hr, pack_emin, Nat.add_zero]
+  split <;> simp only [ite_self]
+
+theorem roundV_canonical' {f : Fmt} (v : Valid f) (man : Nat) (exp : Int) (q : Nat) (e : Int)
+    (h : roundV f man exp = .fin q e) :
+    q < 2 ^ f.p ∧ f.emin ≤ e ∧ e ≤ f.emaxUlp ∧ (2 ^ (f.p - 1) ≤ q ∨ e = f.emin) := by
+  obtain ⟨B, hB, b1, b2, b3, b4, b5⟩ := fmt_facts v
+  have hp := v.p2
+  have hlt : 2 ^ (f.p - 1) < 2 ^ f.p := Nat.pow_lt_pow_right (by omega) (by omega)
+  have hpos := Nat.two_pow_pos (f.p - 1)
+  unfold roundV at h
+  by_cases hm : man = 0
+  · simp only [hm, if_true] at h
+    injection h with h1 h2
+    subst h1 h2
+    exact ⟨Nat.two_pow_pos _, by omega, by omega, Or.inr rfl⟩
+  · simp only [hm, if_false] at h
+    generalize hg : max ((bitlen man : Int) + exp - f.p) f.emin = g at h
+    have hq0 : rne man exp g ≤ 2 ^ f.p := rne_le (by omega)
+    by_cases hc : rne man exp g = 2 ^ f.p
+    · simp only [hc, if_true] at h
+      split at h
+      · cases h
+      · injection h with h1 h2
+        subst h1 h2
+        exact ⟨hlt, by omega, by omega, Or.inl (Nat.le_refl _)⟩
+    · simp only [hc, if_false] at h
+      split at h
+      · cases h
+      · injection h with h1 h2
+        subst h1 h2
+        refine ⟨by omega, by omega, by omega, ?_⟩
+        by_cases hge : g = f.emin
+        · exact Or.inr hge
+        · left
+          exact rne_ge hm (by have : ((f.p - 1 : Nat) : Int) = (f.p : Int) - 1 := by omega
+                              omega)
+
+theorem pack_lt_inf {f : Fmt} (v : Valid f) {q : Nat} {e : Int} (hq : q < 2 ^ f.p) (h1 : f.emin ≤ e) (h2 : e ≤ f.emaxUlp) :
+    pack f (.fin q e) < f.infBits := by
+  obtain ⟨B, hB, b1, b2, b3, b4, b5⟩ := fmt_facts v
+  have hp := v.p2
+  show (e - f.emin).toNat * 2 ^ f.fracBits + q < f.expMax * 2 ^ f.fracBits
+  unfold Fmt.fracBits
+  have hP : 2 ^ f.p = 2 * 2 ^ (f.p - 1) := by rw [show f.p = (f.p - 1) + 1 by omega, Nat.pow_succ]; simp; ring
+  have hk : (e - f.emin).toNat + 2 ≤ f.expMax := by omega
+  have := Nat.mul_le_mul_right (2 ^ (f.p - 1)) hk
+  rw [Nat.add_mul] at this
+  omega
+
+theorem roundBits_lt_inf {f : Fmt} (v : Valid f) (man : Nat) (exp : Int) :
+    roundBits f man exp = f.infBits ↔ roundV f man exp = .inf := by
+  unfold roundBits
+  constructor
+  · intro h
+    cases hr : roundV f man exp with
+    | inf => rfl
+    | fin q e =>
+      rw [hr] at h
+      obtain ⟨c1, c2, c3, c4⟩ := roundV_canonical' v man exp q e hr
+      have := pack_lt_inf v c1 c2 c3
+      omega
+  · intro h; rw [h]; rfl
+
+theorem infBits_pos {f : Fmt} (v : Valid f) : 0 < f.infBits := by
+  obtain ⟨B, hB, b1, b2, b3, b4, b5⟩ := fmt_facts v
+  unfold Fmt.infBits
+  exact Nat.mul_pos (by omega) (Nat.two_pow_pos _)
+
+theorem q1_inf_iff {f : Fmt} (v : Valid f) {man : Nat} (hm : man ≠ 0) (exp : Int) :
+    roundV f (q1 f.p man) (exp + ((bitlen man - f.p : Nat) : Int)) = .inf ↔ maxexp f < top f.p man exp := by
+  refine ⟨?_, q1_inf v hm exp⟩
+  obtain ⟨B, hB, b1, b2, b3, b4, b5⟩ := fmt_facts v
+  have hp : 1 ≤ f.p := by have := v.p2; omega
+  obtain ⟨h1, h2, h3, h4, h5, h6⟩ := norm_facts false exp hm hp
+  rw [← h6 f, roundV_short f hp h2 h3, ← h5, h4]
+  generalize normalize false man exp f.p .n = r at *
+  intro h
+  split at h
+  · unfold maxexp; omega
+  · cases h
+
+theorem overflow_iff' {f : Fmt} (v : Valid f) (fl : PyVal) (s : Bool) {man : Nat} (hm : man ≠ 0) (exp : Int) :
+    mpf2float f fl (.fin s man exp) none .n = .bits (signBits f s + f.infBits) ↔
+      dyLe (2 ^ (f.p + 1) - 1) (f.emaxUlp - 1) man exp := by
+  refine ⟨?_, overflow' v fl s hm exp⟩
+  have hp : 1 ≤ f.p := by have := v.p2; omega
+  intro h
+  rw [two_step'' v fl s hm exp] at h
+  have hi := infBits_pos v
+  have e : f.emaxUlp - 1 = maxexp f - f.p - 1 := by unfold maxexp; omega
+  rw [e, ← top_gt_iff hp hm]
+  generalize (if fl.truthy = true then minexp f else subexp f) = z at h
+  by_cases hz : top f.p man exp < z
+  · simp only [hz, if_true] at h
+    injection h with h; omega
+  · simp only [hz, if_false] at h
+    injection h with h
+    have : roundBits f (q1 f.p man) (exp + ((bitlen man - f.p : Nat) : Int)) = f.infBits := by omega
+    rw [roundBits_lt_inf v] at this
+    exact (q1_inf_iff v hm exp).1 this
+
+theorem roundV_inf_iff' {f : Fmt} (v : Valid f) {man : Nat} (hm : man ≠ 0) (exp : Int) :
+    roundV f man exp = .inf ↔ dyLe (2 ^ (f.p + 1) - 1) (f.emaxUlp - 1) man exp := by
+  obtain ⟨B, hB, b1, b2, b3, b4, b5⟩ := fmt_facts v
+  have hp : 1 ≤ f.p := by have := v.p2; omega
+  have tb := top_bounds (p := f.p) (man := man) hp exp
+  have key : minexp f ≤ (bitlen man : Int) + exp →
+      (roundV f man exp = .inf ↔ dyLe (2 ^ (f.p + 1) - 1) (f.emaxUlp - 1) man exp) := by
+    intro hge
+    rw [← overflow_iff' v .false false hm exp, ge_min_normal' v .false false hm exp hge, ← roundBits_lt_inf v]
+    constructor
+    · intro h; rw [h]
+    · intro h; injection h with h; omega
+  constructor
+  · intro h
+    have hge : minexp f ≤ (bitlen man : Int) + exp := by
+      unfold roundV at h
+      simp only [hm, if_false] at h
+      unfold minexp
+      generalize hg : max ((bitlen man : Int) + exp - f.p) f.emin = g at h
+      by_cases hc : rne man exp g = 2 ^ f.p
+      · simp only [hc, if_true] at h
+        by_cases ho : f.emaxUlp < g + 1
+        · omega
+        · simp only [ho, if_false] at h; cases h
+      · simp only [hc, if_false] at h
+        by_cases ho : f.emaxUlp < g
+        · omega
+        · simp only [ho, if_false] at h; cases h
+    exact (key hge).1 h
+  · intro h
+    have hge : minexp f ≤ (bitlen man : Int) + exp := by
+      have e : f.emaxUlp - 1 = maxexp f - f.p - 1 := by unfold maxexp; omega
+      rw [e, ← top_gt_iff hp hm] at h
+      unfold minexp maxexp at *; omega
+    exact (key hge).2 h
+
+/-! ## the reference rounding is a nearest representable value, ties to even -/
+
+/-- the value `m·2^e` in units of `2^E` (meaningful for `E ≤ e`) -/
+def dyVal (m : Nat) (e E : Int) : Int := (m : Int) * 2 ^ (e - E).toNat
+
+theorem dyVal_nat (m : Nat) (e E : Int) : dyVal m e E = ((m * 2 ^ (e - E).toNat : Nat) : Int) := by
+  unfold dyVal; push_cast; rfl
+
+theorem isRNE_scale {m D q K : Nat} (hk : 0 < K) (h : IsRNE m D q) : IsRNE (m * K) (D * K) q := by
+  unfold IsRNE at *
+  obtain ⟨a1, a2, a3, a4⟩ := h
+  have e1 : 2 * (q * (D * K)) = (2 * (q * D)) * K := by ring
+  have e2 : 2 * (m * K) + D * K = (2 * m + D) * K := by ring
+  have e3 : 2 * (m * K) = (2 * m) * K := by ring
+  have e4 : 2 * (q * (D * K)) + D * K = (2 * (q * D) + D) * K := by ring
+  refine ⟨?_, ?_, ?_, ?_⟩
+  · rw [e1, e2]; exact Nat.mul_le_mul_right K a1
+  · rw [e3, e4]; exact Nat.mul_le_mul_right K a2
+  · rw [e3, e4]; intro h; exact a3 (Nat.eq_of_mul_eq_mul_right hk h)
+  · rw [e1, e2]; intro h; exact a4 (Nat.eq_of_mul_eq_mul_right hk h)
+
+theorem rne_isRNE (man : Nat) {exp g E : Int} (h1 : E ≤ exp) (h2 : E ≤ g) :
+    IsRNE (man * 2 ^ (exp - E).toNat) (2 ^ (g - E).toNat) (rne man exp g) := by
+  unfold rne
+  split
+  · rename_i h
+    have : man * 2 ^ (exp - E).toNat = (man * 2 ^ (exp - g).toNat) * 2 ^ (g - E).toNat := by
+      rw [Nat.mul_assoc, ← Nat.pow_add]; congr 2; omega
+    rw [this]
+    have := Nat.two_pow_pos (g - E).toNat
+    unfold IsRNE
+    refine ⟨by omega, by omega, by omega, by omega⟩
+  · rename_i h
+    have := isRNE_scale (Nat.two_pow_pos (exp - E).toNat) (rneDiv_spec man (g - exp).toNat)
+    rw [← Nat.pow_add] at this
+    rwa [show (g - exp).toNat + (exp - E).toNat = (g - E).toNat by omega] at this
+
+theorem core_grid {X U q0 k : Nat} (hU : 0 < U) (h : IsRNE X U q0) :
+    ((X : Int) - ((q0 * U : Nat) : Int)).natAbs ≤ ((X : Int) - ((k * U : Nat) : Int)).natAbs ∧
+    (((X : Int) - ((q0 * U : Nat) : Int)).natAbs = ((X : Int) - ((k * U : Nat) : Int)).natAbs → k ≠ q0 → q0 % 2 = 0) := by
+  unfold IsRNE at h
+  obtain ⟨a1, a2, a3, a4⟩ := h
+  rcases Nat.lt_trichotomy k q0 with lt | eq | gt
+  · have : (k + 1) * U ≤ q0 * U := Nat.mul_le_mul_right U lt
+    rw [Nat.add_mul, Nat.one_mul] at this
+    constructor
+    · omega
+    · intro he _
+      apply a4; omega
+  · subst eq
+    exact ⟨Nat.le_refl _, fun _ hne => absurd rfl hne⟩
+  · have : (q0 + 1) * U ≤ k * U := Nat.mul_le_mul_right U gt
+    rw [Nat.add_mul, Nat.one_mul] at this
+    constructor
+    · omega
+    · intro he _
+      apply a3; omega
+
+theorem core_below {X U H q0 A R' : Nat} (hU : U = 2 * H) (hH : 0 < H) (hX : A ≤ X) (hR : R' + H ≤ A)
+    (hq : q0 * U = A ∨ A + U ≤ q0 * U) (h : IsRNE X U q0) :
+    ((X : Int) - ((q0 * U : Nat) : Int)).natAbs ≤ ((X : Int) - (R' : Int)).natAbs ∧
+    (((X : Int) - ((q0 * U : Nat) : Int)).natAbs = ((X : Int) - (R' : Int)).natAbs → False) := by
+  unfold IsRNE at h
+  obtain ⟨a1, a2, a3, a4⟩ := h
+  constructor
+  · omega
+  · intro he
+    omega
+
+theorem roundV_nearest_aux {f : Fmt} (v : Valid f) (man : Nat) (exp : Int) (q : Nat) (e : Int)
+    (h : roundV f man exp = .fin q e) (m' : Nat) (e' : Int) (hm' : m' < 2 ^ f.p) (he' : f.emin ≤ e')
+    (E : Int) (h1 : E ≤ exp) (h2 : E < e) (h3 : E ≤ e') :
+    (dyVal man exp E - dyVal q e E).natAbs ≤ (dyVal man exp E - dyVal m' e' E).natAbs ∧
+    ((dyVal man exp E - dyVal q e E).natAbs = (dyVal man exp E - dyVal m' e' E).natAbs →
+      dyVal q e E ≠ dyVal m' e' E → q % 2 = 0) := by
+  obtain ⟨B, hB, b1, b2, b3, b4, b5⟩ := fmt_facts v
+  have hp := v.p2
+  by_cases hm : man = 0
+  · subst hm
+    unfold roundV at h
+    simp only [if_true] at h
+    injection h with h1' h2'
+    subst h1' h2'
+    simp only [dyVal, Nat.cast_zero, Int.zero_mul, Int.sub_zero, Int.natAbs_zero, Nat.zero_le, true_and]
+    intro _ _; trivial
+  · unfold roundV at h
+    simp only [hm, if_false] at h
+    generalize hg : max ((bitlen man : Int) + exp - f.p) f.emin = g at h
+    -- the value of the result in units of 2^E is q0 * U, and q is even when q0 is
+    have hval : E ≤ g ∧ dyVal q e E = ((rne man exp g * 2 ^ (g - E).toNat : Nat) : Int) ∧ (rne man exp g % 2 = 0 → q % 2 = 0) := by
+      by_cases hc : rne man exp g = 2 ^ f.p
+      · simp only [hc, if_true] at h
+        split at h
+        · cases h
+        · injection h with h1' h2'
+          subst h1' h2'
+          refine ⟨by omega, ?_, ?_⟩
+          · rw [dyVal_nat, hc]
+            congr 1
+            rw [show (g + 1 - E).toNat = (g - E).toNat + 1 by omega, Nat.pow_succ,
+              show f.p = (f.p - 1) + 1 by omega, Nat.pow_succ, show f.p - 1 + 1 - 1 = f.p - 1 by omega]
+            ring
+          · intro _
+            rw [show f.p - 1 = (f.p - 2) + 1 by omega, Nat.pow_succ]; omega
+      · simp only [hc, if_false] at h
+        split at h
+        · cases h
+        · injection h with h1' h2'
+          subst h1' h2'
+          exact ⟨by omega, dyVal_nat _ _ _, fun h => h⟩
+    obtain ⟨hEg, hv, hev⟩ := hval
+    have hI := rne_isRNE man h1 hEg
+    have hUpos := Nat.two_pow_pos (g - E).toNat
+    rw [hv, dyVal_nat man exp E]
+    by_cases hge : g ≤ e'
+    · -- the candidate lies on the grid of the result
+      have : dyVal m' e' E = (((m' * 2 ^ (e' - g).toNat) * 2 ^ (g - E).toNat : Nat) : Int) := by
+        rw [dyVal_nat, Nat.mul_assoc, ← Nat.pow_add]
+        congr 3; omega
+      rw [this]
+      obtain ⟨c1, c2⟩ := core_grid (k := m' * 2 ^ (e' - g).toNat) hUpos hI
+      refine ⟨c1, ?_⟩
+      intro he hne
+      apply hev
+      apply c2 he
+      intro hk
+      apply hne
+      rw [hk]
+    · -- the candidate has a finer quantum: it lies below the binade of x
+      have hgL : g = (bitlen man : Int) + exp - f.p := by omega
+      obtain ⟨l1, l2, l3⟩ := bitlen_bounds hm
+      have hU : 2 ^ (g - E).toNat = 2 * 2 ^ ((g - E).toNat - 1) := by
+        rw [show (g - E).toNat = ((g - E).toNat - 1) + 1 by omega, Nat.pow_succ]; simp; ring
+      have hHpos := Nat.two_pow_pos ((g - E).toNat - 1)
+      have hX : 2 ^ (f.p - 1) * 2 ^ (g - E).toNat ≤ man * 2 ^ (exp - E).toNat := by
+        have : 2 ^ (bitlen man - 1) * 2 ^ (exp - E).toNat ≤ man * 2 ^ (exp - E).toNat := Nat.mul_le_mul_right _ l1
+        rw [← Nat.pow_add] at this ⊢
+        rwa [show f.p - 1 + (g - E).toNat = bitlen man - 1 + (exp - E).toNat by omega]
+      have hR : m' * 2 ^ (e' - E).toNat + 2 ^ ((g - E).toNat - 1) ≤ 2 ^ (f.p - 1) * 2 ^ (g - E).toNat := by
+        have s1 : m' * 2 ^ (e' - E).toNat ≤ (2 ^ f.p - 1) * 2 ^ (e' - E).toNat := Nat.mul_le_mul_right _ (by omega)
+        have s2 : 2 ^ (e' - E).toNat ≤ 2 ^ ((g - E).toNat - 1) := Nat.pow_le_pow_right (by omega) (by omega)
+        have s3 : (2 ^ f.p - 1) * 2 ^ (e' - E).toNat ≤ (2 ^ f.p - 1) * 2 ^ ((g - E).toNat - 1) := Nat.mul_le_mul_left _ s2
+        have s4 : (2 ^ f.p - 1) * 2 ^ ((g - E).toNat - 1) + 2 ^ ((g - E).toNat - 1) = 2 ^ (f.p - 1) * 2 ^ (g - E).toNat := by
+          rw [hU]
+          have : 2 ^ f.p = 2 * 2 ^ (f.p - 1) := by rw [show f.p = (f.p - 1) + 1 by omega, Nat.pow_succ]; simp; ring
+          rw [this]
+          have := Nat.two_pow_pos (f.p - 1)
+          obtain ⟨c, hc⟩ : ∃ c, 2 * 2 ^ (f.p - 1) = c + 1 := ⟨2 * 2 ^ (f.p - 1) - 1, by omega⟩
+          rw [hc, Nat.add_sub_cancel]
+          have : 2 ^ (f.p - 1) * (2 * 2 ^ ((g - E).toNat - 1)) = (c + 1) * 2 ^ ((g - E).toNat - 1) := by
+            rw [← hc]; ring
+          rw [this]; ring
+        omega
+      have hq0 : 2 ^ (f.p - 1) ≤ rne man exp g := rne_ge hm (by
+        have : ((f.p - 1 : Nat) : Int) = (f.p : Int) - 1 := by omega
+        omega)
+      have hq : rne man exp g * 2 ^ (g - E).toNat = 2 ^ (f.p - 1) * 2 ^ (g - E).toNat ∨
+          2 ^ (f.p - 1) * 2 ^ (g - E).toNat + 2 ^ (g - E).toNat ≤ rne man exp g * 2 ^ (g - E).toNat := by
+        rcases Nat.eq_or_lt_of_le hq0 with eq | lt
+        · left; rw [← eq]
+        · right
+          have : (2 ^ (f.p - 1) + 1) * 2 ^ (g - E).toNat ≤ rne man exp g * 2 ^ (g - E).toNat :=
+            Nat.mul_le_mul_right (2 ^ (g - E).toNat) lt
+          rwa [Nat.add_mul, Nat.one_mul] at this
+      rw [dyVal_nat m' e' E]
+      obtain ⟨c1, c2⟩ := core_below hU hHpos hX hR hq hI
+      exact ⟨c1, fun he _ => (c2 he).elim⟩
+
+/-! ## bit patterns: decode ∘ pack, identity -/
+
+theorem roundV_nearest' {f : Fmt} (v : Valid f) (man : Nat) (exp : Int) (q : Nat) (e : Int)
+    (h : roundV f man exp = .fin q e) (m' : Nat) (e' : Int) (hm' : m' < 2 ^ f.p) (he' : f.emin ≤ e')
+    (E : Int) (h1 : E ≤ exp) (h2 : E < e) (h3 : E ≤ e') :
+    (dyVal man exp E - dyVal q e E).natAbs ≤ (dyVal man exp E - dyVal m' e' E).natAbs :=
+  (roundV_nearest_aux v man exp q e h m' e' hm' he' E h1 h2 h3).1
+
+theorem roundV_tie_even' {f : Fmt} (v : Valid f) (man : Nat) (exp : Int) (q : Nat) (e : Int)
+    (h : roundV f man exp = .fin q e) (m' : Nat) (e' : Int) (hm' : m' < 2 ^ f.p) (he' : f.emin ≤ e')
+    (E : Int) (h1 : E ≤ exp) (h2 : E < e) (h3 : E ≤ e')
+    (hd : (dyVal man exp E - dyVal q e E).natAbs = (dyVal man exp E - dyVal m' e' E).natAbs)
+    (hne : dyVal q e E ≠ dyVal m' e' E) : q % 2 = 0 :=
+  (roundV_nearest_aux v man exp q e h m' e' hm' he' E h1 h2 h3).2 hd hne
+
+/-! bit patterns -/
+theorem signBit_eq (f : Fmt) (hp : 1 ≤ f.p) : f.signBit = 2 ^ f.ew * 2 ^ f.fracBits := by
+  unfold Fmt.signBit Fmt.width Fmt.fracBits
+  rw [← Nat.pow_add]; congr 1; omega
+
+theorem fields_of {f : Fmt} (hp : 1 ≤ f.p) (s : Bool) {E M : Nat} (hE : E < 2 ^ f.ew) (hM : M < 2 ^ f.fracBits) :
+    fields f ((if s then f.signBit else 0) + E * 2 ^ f.fracBits + M) = ⟨s, E, M⟩ := by
+  have hW := signBit_eq f hp
+  have hP := Nat.two_pow_pos f.fracBits
+  have hlt : E * 2 ^ f.fracBits + M < f.signBit := by
+    rw [hW]
+    have : (E + 1) * 2 ^ f.fracBits ≤ 2 ^ f.ew * 2 ^ f.fracBits := Nat.mul_le_mul_right _ hE
+    rw [Nat.add_mul] at this; omega
+  have hWpos : 0 < f.signBit := by omega
+  unfold fields
+  have e1 : ((if s then f.signBit else 0) + E * 2 ^ f.fracBits + M) / 2 ^ f.fracBits % 2 ^ f.ew = E := by
+    cases s
+    · simp only [Bool.false_eq_true, if_false, Nat.zero_add]
+      rw [Nat.mul_comm, Nat.mul_add_div hP, Nat.div_eq_of_lt hM, Nat.add_zero, Nat.mod_eq_of_lt hE]
+    · simp only [if_true]
+      have : f.signBit + E * 2 ^ f.fracBits + M = 2 ^ f.fracBits * (2 ^ f.ew + E) + M := by rw [hW]; ring
+      rw [this, Nat.mul_add_div hP, Nat.div_eq_of_lt hM,
+        Nat.add_zero, Nat.add_mod_left, Nat.mod_eq_of_lt hE]
+  have e2 : ((if s then f.signBit else 0) + E * 2 ^ f.fracBits + M) % 2 ^ f.fracBits = M := by
+    cases s
+    · simp only [Bool.false_eq_true, if_false, Nat.zero_add]
+      rw [Nat.mul_comm, Nat.mul_add_mod, Nat.mod_eq_of_lt hM]
+    · simp only [if_true]
+      have : f.signBit + E * 2 ^ f.fracBits + M = 2 ^ f.fracBits * (2 ^ f.ew + E) + M := by rw [hW]; ring
+      rw [this, Nat.mul_add_mod, Nat.mod_eq_of_lt hM]
+  have e3 : (decide (((if s then f.signBit else 0) + E * 2 ^ f.fracBits + M) / f.signBit % 2 = 1)) = s := by
+    cases s
+    · simp only [Bool.false_eq_true, if_false, Nat.zero_add]
+      rw [Nat.div_eq_of_lt hlt]; rfl
+    · simp only [if_true]
+      rw [Nat.add_assoc, Nat.add_div_left _ hWpos, Nat.div_eq_of_lt hlt]; rfl
+  rw [e1, e2, e3]
+
+theorem decode_pack' {f : Fmt} (v : Valid f) (q : Nat) (e : Int)
+    (hq : q < 2 ^ f.p) (he : f.emin ≤ e) (he2 : e ≤ f.emaxUlp) (hc : 2 ^ (f.p - 1) ≤ q ∨ e = f.emin) :
+    decode f (pack f (.fin q e)) = .fin false q e := by
+  obtain ⟨B, hB, b1, b2, b3, b4, b5⟩ := fmt_facts v
+  have hp := v.p2
+  have hp1 : 1 ≤ f.p := by omega
+  have hP : 2 ^ f.p = 2 * 2 ^ f.fracBits := by
+    unfold Fmt.fracBits; rw [show f.p = (f.p - 1) + 1 by omega, Nat.pow_succ]; simp; ring
+  have hew : 2 ^ f.ew = 2 * B := by
+    rw [hB, show f.ew = (f.ew - 1) + 1 by have := v.ew2; omega, Nat.pow_succ]; simp; ring
+  have hfb : f.fracBits = f.p - 1 := rfl
+  show decode f ((e - f.emin).toNat * 2 ^ f.fracBits + q) = _
+  by_cases hs : q < 2 ^ f.fracBits
+  · have he' : e = f.emin := by rcases hc with h | h; (rw [← hfb] at h; omega); exact h
+    subst he'
+    have : (f.emin - f.emin).toNat * 2 ^ f.fracBits + q = (if false then f.signBit else 0) + 0 * 2 ^ f.fracBits + q := by simp
+    unfold decode
+    rw [this, fields_of hp1 false (Nat.two_pow_pos _) hs]
+    have : (0 : Nat) ≠ f.expMax := by omega
+    simp [this]
+  · have hk : (e - f.emin).toNat + 1 < 2 ^ f.ew := by omega
+    have hM : q - 2 ^ f.fracBits < 2 ^ f.fracBits := by omega
+    have : (e - f.emin).toNat * 2 ^ f.fracBits + q
+        = (if false then f.signBit else 0) + ((e - f.emin).toNat + 1) * 2 ^ f.fracBits + (q - 2 ^ f.fracBits) := by
+      simp only [Bool.false_eq_true, if_false, Nat.zero_add, Nat.add_mul, Nat.one_mul]; omega
+    unfold decode
+    rw [this, fields_of hp1 false hk hM]
+    have h1 : (e - f.emin).toNat + 1 ≠ f.expMax := by omega
+    have h2 : (e - f.emin).toNat + 1 ≠ 0 := by omega
+    simp only [h1, h2, if_false]
+    congr 1
+    · omega
+    · omega
+
+theorem fields_decomp {f : Fmt} (hp : 1 ≤ f.p) {b : Nat} (hb : b < 2 ^ f.width) :
+    ∃ (sgn : Bool) (E M : Nat), E < 2 ^ f.ew ∧ M < 2 ^ f.fracBits ∧
+      b = (if sgn then f.signBit else 0) + E * 2 ^ f.fracBits + M := by
+  have hW := signBit_eq f hp
+  have hP := Nat.two_pow_pos f.fracBits
+  have hWpos : 0 < f.signBit := by rw [hW]; exact Nat.mul_pos (Nat.two_pow_pos _) hP
+  have hw2 : 2 ^ f.width = 2 * f.signBit := by
+    unfold Fmt.signBit Fmt.width
+    rw [show f.ew + f.p = (f.ew + f.p - 1) + 1 by omega, Nat.pow_succ]; simp; ring
+  have hdm := Nat.div_add_mod b f.signBit
+  have hr := Nat.mod_lt b hWpos
+  have hq : b / f.signBit < 2 := by
+    rw [Nat.div_lt_iff_lt_mul hWpos]; omega
+  have hdm2 := Nat.div_add_mod (b % f.signBit) (2 ^ f.fracBits)
+  have hr2 := Nat.mod_lt (b % f.signBit) hP
+  have hE : b % f.signBit / 2 ^ f.fracBits < 2 ^ f.ew := by
+    rw [Nat.div_lt_iff_lt_mul hP, ← hW]; exact hr
+  refine ⟨decide (b / f.signBit = 1), b % f.signBit / 2 ^ f.fracBits, b % f.signBit % 2 ^ f.fracBits, hE, hr2, ?_⟩
+  rw [Nat.mul_comm] at hdm2
+  have : b / f.signBit = 0 ∨ b / f.signBit = 1 := by
+    generalize b / f.signBit = t at hq
+    omega
+  rcases this with h0 | h1
+  · rw [h0] at hdm
+    have hs : decide (b / f.signBit = 1) = false := by rw [h0]; rfl
+    rw [hs]
+    simp only [Bool.false_eq_true, if_false]
+    omega
+  · rw [h1] at hdm
+    have hs : decide (b / f.signBit = 1) = true := by rw [h1]; rfl
+    rw [hs]
+    simp only [if_true]
+    omega
+
+theorem roundV_id {f : Fmt} (v : Valid f) {q : Nat} {e : Int} (hq0 : q ≠ 0)
+    (hq : q < 2 ^ f.p) (he : f.emin ≤ e) (he2 : e ≤ f.emaxUlp) (hc : 2 ^ (f.p - 1) ≤ q ∨ e = f.emin) :
+    roundV f q e = .fin q e := by
+  have hp := v.p2
+  have hb : bitlen q ≤ f.p := bitlen_le_of_lt hq
+  rw [roundV_short f (by omega) hq0 hb]
+  have hg : max ((bitlen q : Int) + e - f.p) f.emin = e := by
+    rcases hc with h | h
+    · have : bitlen q = (f.p - 1) + 1 := bitlen_eq_of h (by rwa [show f.p - 1 + 1 = f.p by omega])
+      omega
+    · omega
+  rw [hg]
+  have : ¬ f.emaxUlp < e := by omega
+  simp only [this, if_false]
+  congr 1
+  unfold rne; simp
+
+theorem identity' {f : Fmt} (v : Valid f) (kw : Option PyVal) (dflt : PyVal) (hfl : effectiveFlush kw dflt = false)
+    (b : Nat) (hb : b < 2 ^ f.width) (s : Bool) (m : Nat) (e : Int) (hd : decode f b = .fin s m e) (hm : m ≠ 0) :
+    call f kw dflt 0 1 0 .id b 0 = some (.bits b) := by
+  obtain ⟨B, hB, b1, b2, b3, b4, b5⟩ := fmt_facts v
+  have hp := v.p2
+  have hp1 : 1 ≤ f.p := by omega
+  have hP : 2 ^ f.p = 2 * 2 ^ f.fracBits := by
+    unfold Fmt.fracBits; rw [show f.p = (f.p - 1) + 1 by omega, Nat.pow_succ]; simp; ring
+  have hew : 2 ^ f.ew = 2 * B := by
+    rw [hB, show f.ew = (f.ew - 1) + 1 by have := v.ew2; omega, Nat.pow_succ]; simp; ring
+  have hfb : 2 ^ f.fracBits = 2 ^ (f.p - 1) := rfl
+  obtain ⟨sgn, E, M, hE, hM, hbe⟩ := fields_decomp hp1 hb
+  -- read (s, m, e) off the fields
+  have key : s = sgn ∧ m < 2 ^ f.p ∧ f.emin ≤ e ∧ e ≤ f.emaxUlp ∧ (2 ^ (f.p - 1) ≤ m ∨ e = f.emin) ∧
+      pack f (.fin m e) = E * 2 ^ f.fracBits + M := by
+    unfold decode at hd
+    rw [hbe, fields_of hp1 sgn hE hM] at hd
+    simp only at hd
+    by_cases h1 : E = f.expMax
+    · simp only [h1, if_true] at hd
+      split at hd <;> cases hd
+    · simp only [h1, if_false] at hd
+      by_cases h0 : E = 0
+      · simp only [h0, if_true] at hd
+        injection hd with d1 d2 d3
+        subst d1 d2 d3
+        refine ⟨rfl, by omega, by omega, by omega, Or.inr rfl, ?_⟩
+        rw [pack_emin, h0]; simp
+      · simp only [h0, if_false] at hd
+        injection hd with d1 d2 d3
+        subst d1 d2 d3
+        refine ⟨rfl, by omega, by omega, by omega, Or.inl (by rw [← hfb]; omega), ?_⟩
+        show ((E : Int) - 1 + f.emin - f.emin).toNat * 2 ^ f.fracBits + (M + 2 ^ f.fracBits) = _
+        rw [show ((E : Int) - 1 + f.emin - f.emin).toNat = E - 1 by omega]
+        obtain ⟨c, hc⟩ : ∃ c, E = c + 1 := ⟨E - 1, by omega⟩
+        rw [hc, Nat.add_sub_cancel, Nat.add_mul, Nat.one_mul]; omega
+  obtain ⟨k1, k2, k3, k4, k5, k6⟩ := key
+  subst k1
+  have hfl' : (initFlush kw dflt).truthy = false := hfl
+  have hbl : bitlen m ≤ f.p := bitlen_le_of_lt k2
+  have hb1 := (bitlen_bounds hm).2.2
+  have hex : ¬ (extraPrec f.p 0 1 0 < 0) := by unfold extraPrec; simp
+  unfold call
+  simp only [hex, if_false, evalFn, float2mpf, hd, hm]
+  rw [representable' v _ hfl' s hm e hbl (by unfold subexp; omega)]
+  unfold roundBits
+  rw [roundV_id v hm k2 k3 k4 k5, k6, hbe]
+  unfold signBits
+  rw [Nat.add_assoc]
 
 end FAVerif.Mpf
